@@ -1,4 +1,5 @@
 import RtenVerif.Lemmas.ControlFlowSim5
+import RtenVerif.Lemmas.ControlFlowSpec
 
 /-!
 # C24 — control-flow subgraphs behave like the equivalent inlined graph
@@ -71,7 +72,8 @@ example :
       .ok [⟨[2], [9, 24]⟩, ⟨[2, 2], [-3, -8, -6, -16]⟩] := by
   decide
 
-/-- The `Loop` fold depends on the body runner only through its results: if the operational body
+/-- (Lemma, function extensionality — not a property-level statement.) The `Loop` fold depends on
+the body runner only through its results: if the operational body
 run and the naive body evaluation agree on every argument list, the whole loops agree. -/
 theorem c24_loop_congr (S : Sem P V) (onnx : Bool) (run₁ run₂ : Nat → List V → Except Err (List V))
     (h : ∀ i args, run₁ i args = run₂ i args) (bi bo : Nat) (tv cv : Option V) (cs : List V) :
@@ -79,7 +81,7 @@ theorem c24_loop_congr (S : Sem P V) (onnx : Bool) (run₁ run₂ : Nat → List
   have : run₁ = run₂ := by funext i args; exact h i args
   rw [this]
 
-/-- Unrolling law of the fold (ONNX `Loop`): one more iteration = run the body on
+/-- (Lemma: unfolding of `loopIter`.) Unrolling law of the fold (ONNX `Loop`): one more iteration = run the body on
 `(i, cond, carried…)`, read the new condition, keep the first `k` results as carried values and
 append the rest to the scan lists. -/
 theorem c24_loop_unroll (S : Sem P V) (run : Nat → List V → Except Err (List V)) (k rem i : Nat)
@@ -89,7 +91,8 @@ theorem c24_loop_unroll (S : Sem P V) (run : Nat → List V → Except Err (List
       loopIter S run k rem (i + 1) c' (rest.take k) (pushScans sc (rest.drop k)) := by
   simp [loopIter, hc, hrun, hco]
 
-/-- The loop stops when the condition is false or the trip count is exhausted. -/
+/-- (Lemma: unfolding of `loopIter`.) The loop stops when the condition is false or the trip
+count is exhausted. -/
 theorem c24_loop_stop (S : Sem P V) (run : Nat → List V → Except Err (List V)) (k rem i : Nat)
     (c : Int) (cs : List V) (sc : List (List V)) (h : rem = 0 ∨ c = 0) :
     loopIter S run k rem i c cs sc = .ok (cs, sc) := by
@@ -329,6 +332,50 @@ example :
   have := c24_runPlan_eq_evalG intSem intSem_one_inplace 4 progS1
     ([⟨[2], [1, 2]⟩, ⟨[2], [3, 4]⟩, ⟨[], [1]⟩].map (fun v => (true, v))) (by decide)
   simpa [List.map_map, Function.comp_def] using this
+
+/-! ### The naive side is the ONNX text, not the model's own loop -/
+
+/-- **The model of `Loop::run_subgraph` (`loopCore`: countdown recursion, `trip_count.unwrap_or(
+i32::MAX)`, `cond.unwrap_or(1)`, `(step as i32) < trip_count && cond != 0`, scan lists) computes the
+ONNX `Loop` as the operator text states it** (`loopSpec`: left fold over the iteration numbers
+`List.range M`, keep-going value in the state, no definition shared with `loopCore`), for every body,
+trip count (absent, zero, negative, any size), condition (absent, false at start, false after k) and
+both readings of empty scan outputs. -/
+theorem c24_loopCore_eq_loopSpec (S : Sem P V) (onnx : Bool)
+    (run : Nat → List V → Except Err (List V)) (bodyIn bodyOut : Nat) (tripV condV : Option V)
+    (cs : List V) :
+    loopCore S onnx run bodyIn bodyOut tripV condV cs =
+      loopSpec S onnx run bodyIn bodyOut tripV condV cs :=
+  loopCore_eq_loopSpec S onnx run bodyIn bodyOut tripV condV cs
+
+/-- **T1 against the independent semantics**: `run_plan` = the naive graph semantics whose `Loop` is
+the ONNX-text fold (`evalGSpec`). -/
+theorem c24_runPlan_eq_evalGSpec (S : Sem P V) (hS : ∀ k, (S.inPlaceIdx k).length ≤ 1) (fuel : Nat)
+    (g : Graph P V) (args : List (Bool × V)) (hwf : wfG fuel g = true) :
+    runTop S fuel g args = evalGSpec S false fuel [] g (args.map (·.2)) := by
+  rw [evalG_eq_spec]; exact c24_runPlan_eq_evalG S hS fuel g args hwf
+
+/-- A body for the edge-case instances below: inputs `(i, keepgoing, x)`, outputs
+`(i < 2, x + 1, scan i)`. -/
+def edgeBody : Nat → List Tens → Except Err (List Tens)
+  | i, [it, _, x] => .ok [⟨[], [if i < 2 then 1 else 0]⟩, ⟨x.shape, x.data.map (· + 1)⟩, it]
+  | _, _ => .error .arity
+
+/-- Edge instances of the ONNX-text fold (tests of the *specification*; `decide`): trip 5 with the
+condition turning false after iteration 2 (three iterations run); trip 0; negative trip; condition
+false at start; trip 2 cuts the loop before the condition does. -/
+example : loopSpec intSem true edgeBody 3 3 (some ⟨[], [5]⟩) none [⟨[], [10]⟩] =
+    .ok [⟨[], [13]⟩, ⟨[3], [0, 1, 2]⟩] := by decide
+example : loopSpec intSem true edgeBody 3 3 (some ⟨[], [0]⟩) none [⟨[], [10]⟩] =
+    .ok [⟨[], [10]⟩, ⟨[0], []⟩] := by decide
+example : loopSpec intSem false edgeBody 3 3 (some ⟨[], [-1]⟩) none [⟨[], [10]⟩] =
+    .ok [⟨[], [10]⟩] := by decide
+example : loopSpec intSem true edgeBody 3 3 (some ⟨[], [5]⟩) (some ⟨[], [0]⟩) [⟨[], [10]⟩] =
+    .ok [⟨[], [10]⟩, ⟨[0], []⟩] := by decide
+example : loopSpec intSem true edgeBody 3 3 (some ⟨[], [2]⟩) (some ⟨[], [7]⟩) [⟨[], [10]⟩] =
+    .ok [⟨[], [12]⟩, ⟨[2], [0, 1]⟩] := by decide
+example : loopSpec intSem true edgeBody 3 3 (some ⟨[2], [1, 2]⟩) none [⟨[], [10]⟩] =
+    .error .badCond := by decide
 
 /-! ## T2 -/
 
